@@ -401,6 +401,7 @@ impl<T: Engine> Block for FftFilterFloat<T> {
             for (i, samp) in outer_in.iter().take(n).enumerate() {
                 o[i] = Complex::new(*samp, 0.0);
             }
+            let tags: Vec<_> = tags.into_iter().filter(|t| t.pos() < n).collect();
             inner_to.produce(n, &tags);
             outer_in.consume(n);
         }
@@ -420,6 +421,7 @@ impl<T: Engine> Block for FftFilterFloat<T> {
                 o[i] = samp.re;
             }
             inner_from.consume(n);
+            let tags: Vec<_> = tags.into_iter().filter(|t| t.pos() < n).collect();
             outer_to.produce(n, &tags);
         }
 
